@@ -28,6 +28,10 @@ import XotModel.Lemmas.FStack
 import XotModel.Lemmas.Scope10
 import XotModel.Lemmas.TraceInv
 import XotModel.Lemmas.RepairDoc
+import XotModel.Lemmas.RepairFuel
+import XotModel.Lemmas.RepairKeepTop
+import XotModel.Lemmas.RepairValid
+import XotModel.Lemmas.SerResolveTop
 
 namespace XotModel.Props
 open XotModel
@@ -600,7 +604,308 @@ example :
       | _ => (0, none, none, none, none)) =
     (8, some [(0, 3), (6, 2), (7, 3)], some [(0, 0)], some false, some true) := by decide
 
+/-! ### The `n{counter}` loop cannot run out: the call never panics -/
+
+/-- `format!("n{}", counter)` is injective: different counters give different prefix strings. -/
+theorem C10_generated_prefix_injective (a b : Nat) (h : generatedPrefixName a = generatedPrefixName b) :
+    a = b :=
+  generatedPrefixName_inj h
+
+/-- The loop `loop { p = add_prefix("n{counter}"); counter += 1; if !used.contains(p) { break } }`
+    ends within `used.length + 1` iterations — the fuel the model gives it — for EVERY interning
+    table (duplicate entries included), counter and `used` set: each iteration that does not break
+    names a different member of `used` (pigeonhole over the injective decimal spellings). -/
+theorem C10_repair_fuel_suffices (used : List Nat) (env : Env) (counter : Nat) :
+    ∃ env1 p counter1, freshPrefix used (used.length + 1) env counter = some (env1, p, counter1) := by
+  have h := freshPrefix_fuel used env counter
+  cases hf : freshPrefix used (used.length + 1) env counter with
+  | none => rw [hf] at h; cases h
+  | some r => exact ⟨r.1, r.2.1, r.2.2, rfl⟩
+
+/-- NEVER PANICS, and exactly when the call fails: for every tree, every interning table (no
+    hypothesis at all) and every existing node, `create_missing_prefixes` answers
+    `Err(NotElement)` on a node that is neither document nor element, `Err(NoElementAtTopLevel)` on a
+    document without element child, and `Ok` in every other case — the panic outcomes of the model
+    (`pushed.pop().unwrap()`, the fuel of the `n{counter}` loop) are unreachable. -/
+theorem C10_repair_never_panics (env : Env) (t : Tree) (path : Path) (node : Tree)
+    (hat : t.at? path = some node) :
+    createMissingPrefixes env t path ≠ .panic ∧
+    (node.value.isDocument = false → node.value.isElement = false →
+      createMissingPrefixes env t path = .err .notElement) ∧
+    (node.value.isDocument = true → elementKidIndices node.kids = [] →
+      createMissingPrefixes env t path = .err .noElementAtTopLevel) ∧
+    ((node.value.isElement = true ∨
+        (node.value.isDocument = true ∧ elementKidIndices node.kids ≠ [])) →
+      ∃ env' t', createMissingPrefixes env t path = .ok (env', t')) := by
+  obtain ⟨h1, h2, h3⟩ := createMissingPrefixes_total env t path node hat
+  refine ⟨?_, h1, h2, h3⟩
+  cases hd : node.value.isDocument with
+  | false =>
+    cases he : node.value.isElement with
+    | false => rw [h1 hd he]; exact fun h => by cases h
+    | true => obtain ⟨e, t', h⟩ := h3 (Or.inl he); rw [h]; exact fun h => by cases h
+  | true =>
+    by_cases hk : elementKidIndices node.kids = []
+    · rw [h2 hd hk]; exact fun h => by cases h
+    · obtain ⟨e, t', h⟩ := h3 (Or.inr ⟨hd, hk⟩); rw [h]; exact fun h => by cases h
+
+/-- The element theorems without "for a call that returns Ok": on an element of a tree whose
+    elements declare no prefix twice the call SUCCEEDS, changes namespace nodes only, makes every
+    name of the subtree writable, and is the identity when repeated. -/
+theorem C10_repair_total (env : Env) (hok : EnvOk env) (t : Tree) (path : Path) (name : Nat)
+    (ks : List Tree) (hat : t.at? path = some (.node (.element name) ks))
+    (hu : UniqueBelow (.node (.element name) ks)) :
+    ∃ env' t', createMissingPrefixes env t path = .ok (env', t') ∧
+      stripNs t' = stripNs t ∧ env'.names = env.names ∧ env'.namespaces = env.namespaces ∧
+      namesWritable env' t' path = some true ∧
+      createMissingPrefixes env' t' path = .ok (env', t') := by
+  obtain ⟨env', t', h⟩ := (createMissingPrefixes_total env t path _ hat).2.2 (Or.inl rfl)
+  obtain ⟨f1, f2, f3⟩ := C10_repair_frame env hok t path name ks hat hu env' t' h
+  exact ⟨env', t', h, f1, f2, f3, C10_repair_writable env hok t path name ks hat hu env' t' h,
+    C10_repair_idem env hok t path name ks hat hu env' t' h⟩
+
+/-- The same for a document or fragment with at least one element child. -/
+theorem C10_repair_document_total (env : Env) (hok : EnvOk env) (t : Tree) (path : Path) (doc : Tree)
+    (hat : t.at? path = some doc) (hdoc : doc.value.isDocument = true)
+    (hel : elementKidIndices doc.kids ≠ [])
+    (hu : ∀ (i : Nat) (k : Tree), doc.kids[i]? = some k → k.value.isElement = true → UniqueBelow k) :
+    ∃ env' t', createMissingPrefixes env t path = .ok (env', t') ∧
+      stripNs t' = stripNs t ∧ env'.names = env.names ∧ env'.namespaces = env.namespaces ∧
+      createMissingPrefixes env' t' path = .ok (env', t') := by
+  obtain ⟨env', t', h⟩ := (createMissingPrefixes_total env t path _ hat).2.2 (Or.inr ⟨hdoc, hel⟩)
+  obtain ⟨f1, f2, f3, _⟩ := C10_repair_document_frame env hok t path doc hat hdoc hu env' t' h
+  exact ⟨env', t', h, f1, f2, f3, C10_repair_document_idem env hok t path doc hat hdoc hu env' t' h⟩
+
+/-- Non-vacuity of the pigeonhole: every candidate `n0`, `n1`, `n2` is registered (ids 2, 4, 3) and
+    used; the loop registers `n3` (id 5) at the fourth iteration — the last the fuel allows. -/
+example : (freshPrefix [2, 3, 4] 4 ⟨[], [[], ['x'], ['n','0'], ['n','2'], ['n','1']], []⟩ 0).map
+      (fun r => (r.1.prefixes, r.2)) =
+    some ([[], ['x'], ['n','0'], ['n','2'], ['n','1'], ['n','3']], 5, 4) := by decide
+example : createMissingPrefixes ⟨[], [], []⟩ (.node (.text ['x']) []) [] = .err .notElement := rfl
+example : createMissingPrefixes ⟨[], [], []⟩ (.node .document [.node (.text ['x']) []]) [] =
+    .err .noElementAtTopLevel := rfl
+
+/-! ### Descendants' declarations and the bindings in force are kept
+
+Raw child indices shift when namespace nodes are inserted, so nodes are identified by their position
+in document order among the nodes that are not namespace nodes: `nodesBelow F E` lists the nodes
+below `E` in that order, each with the declaration frames in force at it — its own declarations (an
+element) or nothing (another node) first, then those of its ancestors up to `E`, then `F`.  Here
+`F = [inheritedDecls t path]`: what the repaired element inherits (`namespaces_in_scope(parent)`,
+or the `xml` binding for a parentless element). -/
+
+/-- DESCENDANTS' DECLARATIONS: the call inserts namespace nodes only (same number of other nodes
+    below the repaired element, each with its value), and the declaration list of every node other
+    than the repaired element is its list before — except that an element in no namespace at which
+    (frames around it AFTER the call, plus its own declarations) the empty prefix is bound to a
+    namespace gets `insert("", no namespace)` (`insertDecl`: its own `xmlns="…"` is overwritten in
+    place, otherwise `xmlns=""` is appended), and exactly then. -/
+theorem C10_repair_keeps_declarations (env : Env) (hok : EnvOk env) (t : Tree) (path : Path) (name : Nat)
+    (ks : List Tree) (hat : t.at? path = some (.node (.element name) ks))
+    (hu : UniqueBelow (.node (.element name) ks)) (env' : Env) (t' : Tree)
+    (h : createMissingPrefixes env t path = .ok (env', t')) :
+    ∃ E', t'.at? path = some E' ∧ E'.value = .element name ∧
+      (nodesBelow [inheritedDecls t path] (.node (.element name) ks)).length =
+        (nodesBelow [inheritedDecls t path] E').length ∧
+      ∀ (k : Nat) (b a : Frames × Tree),
+        (nodesBelow [inheritedDecls t path] (.node (.element name) ks))[k]? = some b →
+        (nodesBelow [inheritedDecls t path] E')[k]? = some a →
+        a.2.value = b.2.value ∧
+        ((NeedsUndeclaration env.nsOfName a.1.tail b.2 ∧
+            a.2.nsDecls = insertDecl Env.emptyPrefix Env.noNamespace b.2.nsDecls) ∨
+          (¬ NeedsUndeclaration env.nsOfName a.1.tail b.2 ∧ a.2.nsDecls = b.2.nsDecls)) := by
+  rw [C10_repair_element env t path name ks hat] at h
+  obtain ⟨E', h1, h2, _, h4⟩ := facts_kept hat hu (repairElement_facts env hok t path name ks hat hu env' t' h)
+  obtain ⟨hl, hall⟩ := allPairs_iff_getElem.mp h4
+  exact ⟨E', h1, h2, hl, fun k b a hb ha => ⟨(hall k b a hb ha).1, (hall k b a hb ha).2.1⟩⟩
+
+/-- BINDINGS: at the repaired element and at every node below it, every binding of a non-empty prefix
+    in force before the call is in force after it (same prefix, same namespace), and the empty
+    prefix means what it meant or — below an element in no namespace that got `xmlns=""` — a default
+    namespace has become "no namespace" (`BindingsKept`).  Nothing else is overridden: the prefixes
+    the call adds are bound nowhere in scope and declared nowhere in the subtree
+    (`C10_repair_fresh_prefixes`). -/
+theorem C10_repair_keeps_bindings (env : Env) (hok : EnvOk env) (t : Tree) (path : Path) (name : Nat)
+    (ks : List Tree) (hat : t.at? path = some (.node (.element name) ks))
+    (hu : UniqueBelow (.node (.element name) ks)) (env' : Env) (t' : Tree)
+    (h : createMissingPrefixes env t path = .ok (env', t')) :
+    ∃ E', t'.at? path = some E' ∧
+      BindingsKept ((Tree.node (.element name) ks).nsDecls :: [inheritedDecls t path])
+        (E'.nsDecls :: [inheritedDecls t path]) ∧
+      ∀ (k : Nat) (b a : Frames × Tree),
+        (nodesBelow [inheritedDecls t path] (.node (.element name) ks))[k]? = some b →
+        (nodesBelow [inheritedDecls t path] E')[k]? = some a → BindingsKept b.1 a.1 := by
+  rw [C10_repair_element env t path name ks hat] at h
+  obtain ⟨E', h1, _, h3, h4⟩ := facts_kept hat hu (repairElement_facts env hok t path name ks hat hu env' t' h)
+  exact ⟨E', h1, h3, fun k b a hb ha => ((allPairs_iff_getElem.mp h4).2 k b a hb ha).2.2⟩
+
+/-- What `BindingsKept` means for names: a prefixed element name, and every attribute name, that
+    resolved to a namespace before resolves — written with the SAME prefix — to the same namespace
+    after; an unprefixed element name resolves to the same namespace or to no namespace. -/
+theorem C10_repair_keeps_resolution (fb fa : Frames) (hk : BindingsKept fb fa) :
+    (∀ p ns, p ≠ Env.emptyPrefix → resolveElementName fb (some p) = some ns →
+      resolveElementName fa (some p) = some ns) ∧
+    (∀ pfx ns, pfx ≠ some Env.emptyPrefix → resolveAttributeName fb pfx = some ns →
+      resolveAttributeName fa pfx = some ns) ∧
+    (resolveElementName fa none = resolveElementName fb none ∨
+      resolveElementName fa none = some Env.noNamespace) := by
+  have hp : ∀ p ns, p ≠ Env.emptyPrefix → resolvePrefix fb p = some ns → resolvePrefix fa p = some ns := by
+    intro p ns hpe hr
+    unfold resolvePrefix at hr ⊢
+    split
+    · rename_i hx; simpa [hx] using hr
+    · rename_i hx; simp only [hx] at hr; exact hk.1 p hpe ns hr
+  refine ⟨fun p ns hpe hr => hp p ns hpe hr, fun pfx ns hpe hr => ?_, ?_⟩
+  · cases pfx with
+    | none => exact hr
+    | some p => exact hp p ns (fun h => hpe (by rw [h])) hr
+  · simp only [resolveElementName]
+    rcases hk.2 with h | ⟨h, _⟩
+    · left; rw [h]
+    · right; rw [h]; rfl
+
+/-- Non-vacuity, and the one binding the call does change: `<a xmlns="u"><b><c/></b><d xmlns:p="v"/></a>`
+    with `a`, `c` in namespace `u` (id 2), `b`, `d` in none.  `b` and `d` get `xmlns=""` (appended after
+    `d`'s own declaration), so below `b` the empty prefix no longer means `u`; `c`, which was written
+    unprefixed, is now written with the new prefix `n0` (id 3) declared on `a`.  The declarations of
+    `c` are untouched and the binding of `p` (id 2) at `d` is kept.  Listed per node below `a`:
+    declarations; binding of the empty prefix; binding of `p`. -/
+example :
+    let env : Env := ⟨[[], ['x'], ['u'], ['v']], [[], ['x','m','l'], ['p']],
+      [(['a'], 2), (['b'], 0), (['c'], 2), (['d'], 0)]⟩
+    let E : Tree := .node (.element 0) [.node (.namespace 0 2) [],
+      .node (.element 1) [.node (.element 2) []], .node (.element 3) [.node (.namespace 2 3) []]]
+    ((nodesBelow [basePrefixes] E).map (fun x => x.2.nsDecls) = [[], [], [(2, 3)]] ∧
+      (nodesBelow [basePrefixes] E).map (fun x => lookupFrames x.1 0) = [some 2, some 2, some 2] ∧
+      (nodesBelow [basePrefixes] E).map (fun x => lookupFrames x.1 2) = [none, none, some 3]) ∧
+    (match createMissingPrefixes env E [] with
+      | .ok (_, E') => decide (
+        E'.nsDecls = [(0, 2), (3, 2)] ∧
+        (nodesBelow [basePrefixes] E').map (fun x => x.2.nsDecls) = [[(0, 0)], [], [(2, 3), (0, 0)]] ∧
+        (nodesBelow [basePrefixes] E').map (fun x => lookupFrames x.1 0) = [some 0, some 0, some 0] ∧
+        (nodesBelow [basePrefixes] E').map (fun x => lookupFrames x.1 2) = [none, none, some 3])
+      | _ => false) = true := by decide
+
+/-! ### Document-level writability from structural validity -/
+
+/-- WRITABLE for a document or fragment, the leaf hypothesis of `C10_repair_document_writable`
+    discharged by `KindsOk` (Model/Valid: text, comment and PI nodes have no children, a document
+    node is never a child) at the document node and its children. -/
+theorem C10_repair_document_writable_kinds (env : Env) (hok : EnvOk env) (t : Tree) (path : Path) (doc : Tree)
+    (hat : t.at? path = some doc) (hdoc : doc.value.isDocument = true)
+    (hu : ∀ (i : Nat) (k : Tree), doc.kids[i]? = some k → k.value.isElement = true → UniqueBelow k)
+    (hkinds : doc.Forall KindsOk)
+    (env' : Env) (t' : Tree) (h : createMissingPrefixes env t path = .ok (env', t')) :
+    namesWritable env' t' path = some true :=
+  C10_repair_document_writable env hok t path doc hat hdoc hu (leaves_of_kindsOk doc hkinds) env' t' h
+
+/-- For every structurally valid document (or fragment) with an element child, and interning tables
+    with the empty prefix at id 0 — no other hypothesis: the call on the root SUCCEEDS, changes
+    namespace nodes only, makes every name of the document writable, and is the identity when
+    repeated. -/
+theorem C10_repair_document_valid (env : Env) (hok : EnvOk env) (t : Tree) (hv : StructValid t)
+    (hel : elementKidIndices t.kids ≠ []) :
+    ∃ env' t', createMissingPrefixes env t [] = .ok (env', t') ∧
+      stripNs t' = stripNs t ∧ env'.names = env.names ∧ env'.namespaces = env.namespaces ∧
+      namesWritable env' t' [] = some true ∧
+      createMissingPrefixes env' t' [] = .ok (env', t') := by
+  have hub := uniqueBelow_of_uniqueKids t hv.2.2.2
+  have hu : ∀ (i : Nat) (k : Tree), t.kids[i]? = some k → k.value.isElement = true → UniqueBelow k := by
+    intro i k hk _
+    cases t with
+    | node v ks => exact hub.kid hk
+  obtain ⟨env', t', h, f1, f2, f3, f4⟩ := C10_repair_document_total env hok t [] t rfl hv.1 hel hu
+  exact ⟨env', t', h, f1, f2, f3,
+    C10_repair_document_writable_kinds env hok t [] t rfl hv.1 hu hv.2.2.1 env' t' h, f4⟩
+
+/-- The leaf hypothesis cannot simply be dropped in the model: a (structurally invalid) text child of
+    the document holding an element in an undeclared namespace is not repaired — only element
+    children of the document are. -/
+example :
+    let env : Env := ⟨[[], ['x'], ['u']], [[], ['x','m','l']], [(['a'], 0), (['e'], 2)]⟩
+    let t : Tree := .node .document [.node (.text ['x']) [.node (.element 1) []], .node (.element 0) []]
+    (match createMissingPrefixes env t [] with
+      | .ok (env', t') => namesWritable env' t' []
+      | _ => none) = some false := by decide
+/-- Non-vacuity of `C10_repair_document_valid`: `<a/>` with `a` in an undeclared namespace. -/
+example : StructValid (.node .document [.node (.element 0) []]) ∧
+    elementKidIndices (Tree.node .document [.node (.element 0) []]).kids ≠ [] := by
+  refine ⟨⟨rfl, ?_, ?_, ?_⟩, by decide⟩ <;>
+    simp [Tree.Forall, Tree.Forall.forallList, OrderedKids, KindsOk, UniqueKids, attrNames, nsPrefixes,
+      Value.isLeafKind, Value.isElement, Value.isDocument, Value.isNormal, Value.category, Tree.value]
+
 end Repair
+
+/-! ## Names resolve in the token TEXTS (first sentence, one step closer to the bytes)
+
+`SerResolve.resolveGo` is an independent XML-Namespaces resolver over the token stream of
+`Xot::tokens` (Lemmas/SerResolve; the Lean counterpart of the `ser` suite's oracle): of every token it
+is told the kind and the TEXT.  It reads `xmlns="…"` / `xmlns:p="…"` declarations back out of the
+texts (value unescaped), keeps them per open start tag, splits qualified names at the first colon
+and resolves the prefix string in the declarations read so far (`xml` reserved; unprefixed element
+→ default namespace; unprefixed attribute → none).  `SerResolve.expectedGo` lists, for the same
+run, the expanded names of the nodes as strings through the interning tables. -/
+
+section Resolve
+open XotModel.SerResolve
+
+/-- FIRST SENTENCE, at the level of token texts: whenever the run succeeds, the resolver's answers —
+    for every start-tag name, every attribute name and every written end-tag name, in order — are the
+    expanded names `(namespace URI, local name)` of the nodes.  For every tree whose elements declare
+    no prefix twice, declare registered prefixes only and do not rebind `xml` (`DeclsOkBelow`;
+    likewise the bindings in scope at the start node), a start node that is an element or has only
+    `xml` bindings in scope (a document node: nothing else could be declared in its output), any
+    parameters, any escaping function that the unescaper inverts, interning tables with pairwise
+    different prefix strings, the built-in entries, and no `:` / `=` in prefixes and local names. -/
+theorem C10_names_resolve_in_tokens (esc : Escapers) (env : Env) (pr : TokenParams) (t : Tree)
+    (unesc : Str → Str) (henv : EnvStrings env) (hue : ∀ u, unesc (esc.attr u) = u) (start : Path)
+    (n : Tree) (inScope : List (Nat × Nat)) (hat : t.at? start = some n)
+    (hs : namespacesInScope t start = some inScope) (hu : UniqueBelow n) (hdk : DeclsOkBelow env n)
+    (hin : DeclsOk env inScope) (hstart : n.value.isElement = true ∨ OnlyXmlInScope inScope)
+    (toks : List (Path × Output × OutputToken)) (hr : tokensWith esc env pr t start = .ok toks) :
+    resolveGo unesc [] none (view toks) = expectedGo env none (evs toks) := by
+  apply tokens_resolve esc env pr t unesc henv hue start n inScope hat hs hu hdk hin hstart
+  unfold tokensWith at hr
+  cases h : renderAllWith esc env pr t (initStack t start) (genOutputs t start) with
+  | ok l => rw [h] at hr; exact hr
+  | err e => rw [h] at hr; cases hr
+  | panic => rw [h] at hr; cases hr
+
+/-- The same for the crate's own escaping (`serialize_attribute`), read back with the crate's
+    `parse_attribute`. -/
+theorem C10_names_resolve_in_tokens_xml (env : Env) (pr : TokenParams) (t : Tree)
+    (henv : EnvStrings env) (start : Path)
+    (n : Tree) (inScope : List (Nat × Nat)) (hat : t.at? start = some n)
+    (hs : namespacesInScope t start = some inScope) (hu : UniqueBelow n) (hdk : DeclsOkBelow env n)
+    (hin : DeclsOk env inScope) (hstart : n.value.isElement = true ∨ OnlyXmlInScope inScope)
+    (toks : List (Path × Output × OutputToken)) (hr : tokens env pr t start = .ok toks) :
+    resolveGo unescapeValue [] none (view toks) = expectedGo env none (evs toks) :=
+  C10_names_resolve_in_tokens xmlEscapers env pr t unescapeValue henv unescapeValue_serializeAttribute
+    start n inScope hat hs hu hdk hin hstart toks hr
+
+/-- Non-vacuity: `<p:a xmlns:p="u" p:x="1"><b/></p:a>` as a document (`a`, `x` in namespace `u`, `b` in
+    none), escaping functions = identity so that the run is closed under `decide`: the token texts,
+    and what the resolver answers on them (= the expected expanded names). -/
+example :
+    let env : Env := ⟨[[], Gen.xmlNs, ['u']], [[], ['x','m','l'], ['p']], [(['a'], 2), (['x'], 2), (['b'], 0)]⟩
+    let t : Tree := .node .document [.node (.element 0) [.node (.namespace 2 2) [],
+      .node (.attribute 1 ['1']) [], .node (.element 2) []]]
+    let esc : Escapers := ⟨fun s => s, fun _ s => s, fun s => s⟩
+    (match tokensWith esc env {} t [] with
+      | .ok toks => decide (
+          toks.map (fun x => x.2.2.text) =
+            [['<','p',':','a'], ['x','m','l','n','s',':','p','=','"','u','"'], ['p',':','x','=','"','1','"'], ['>'],
+             ['<','b'], ['/','>'], [], ['<','/','p',':','a','>']] ∧
+          resolveGo (fun s => s) [] none (view toks) =
+            [(false, some ['u'], ['a']), (true, some ['u'], ['x']), (false, some [], ['b']),
+             (false, some ['u'], ['a'])] ∧
+          expectedGo env none (evs toks) = resolveGo (fun s => s) [] none (view toks))
+      | _ => false) = true := by decide
+/-- The hypothesis on the interning tables holds for the tables of that example. -/
+example : EnvStrings ⟨[[], Gen.xmlNs, ['u']], [[], ['x','m','l'], ['p']], [(['a'], 2), (['x'], 2), (['b'], 0)]⟩ :=
+  ⟨by decide, rfl, rfl, rfl, rfl, by decide⟩
+
+end Resolve
 
 /-- Non-vacuity: `<a xmlns:p="2"><p:b/></a>`-like scope — name 0 = `b` in namespace 2, prefix 5
     bound to it two frames up, an unrelated frame in between. -/
